@@ -606,7 +606,7 @@ func TestC17(t *testing.T) {
 		"Schedules are sampled by the Go scheduler under the race detector, not enumerated.")
 	h.Assume("the Go race detector reports only real races; a schedule that was not hit is not covered")
 	loadKnown()
-	h.RunProp(t, conc, h.N(80, 800))
+	h.RunProp(t, conc, h.N(50, 800))
 	for _, k := range known {
 		line := fmt.Sprintf("KNOWN-FINDING: property=C17 %s %s (race signature %s; observed in %d runs of this check)", k.ID, k.What, k.Sig, knownSeen[k.ID])
 		fmt.Println(line)
